@@ -56,4 +56,51 @@ theorem decompose_svdCert (hsq : ∀ x : K, 0 ≤ x → sq x * sq x = x) (hsq0 :
   have hp := decompose_cert sq hsq hsq0 m n A d h
   exact ⟨hp.fact, hp.vtv, fun i j hi _ => hp.utu i j hi, hun⟩
 
+/-- **the invariant at every point of `decompose`** (all loops, all iterations):
+    1. after every Householder step `i` of the bidiagonalisation (`Inv1St`: `A = (P₁⋯Pᵢ)·Workᵢ·(Q₁⋯Qᵢ)ᵀ`
+       with the reflectors read off the stored vectors, each an involution);
+    2. after every step of the accumulation of the right-hand transformations: the trailing block of
+       `V` is the product `Q_{n-t+1}⋯Qₙ`;
+    3. after every step of the accumulation of the left-hand transformations: the trailing block of
+       `U` is `P_{mn-t+1}⋯P_mn·[I;0]`, the Householder vectors still to be used are intact;
+    4. after every Givens rotation pair of a QR sweep (`sw_Inv`: `A = U·M·Vᵀ`, `VᵀV = 1`,
+       `UᵀU + ZᵀZ = 1`, `Z·M = 0` with `M` the bidiagonal matrix plus the bulge held in the scalars);
+    5. after every pass for the singular value `k` (`PInv`: `A = U·bidiag(W, rv1)·Vᵀ`, orthogonality,
+       `rv1[j] = 0 ∧ 0 ≤ W[j]` beyond `k`, and beyond `k-1` once `done` is set). -/
+theorem decompose_invariant (hsq : ∀ x : K, 0 ≤ x → sq x * sq x = x) (hsq0 : ∀ x : K, 0 ≤ x → 0 ≤ sq x)
+    (m n : Nat) (A : DMat K) :
+    (∀ i, i ≤ n → ∀ st : St1 K,
+      forIn [1:i+1] (init1 sq m n A) (@bidiagBody K 𝕊 m n) = .ok st → Inv1St sq m n A i st) ∧
+    (∀ (U : DMat K) (rv1 : Array K) (g0 s0 : K) (L0 t : Nat), t ≤ n → ∀ st : DMat K × K × K × Nat,
+      forIn [0:t] ((Array.replicate n (Array.replicate n (0 : K)), g0, s0, L0) : DMat K × K × K × Nat)
+        (@accVBody K 𝕊 n U rv1) = .ok st →
+      MWF n n st.1 ∧ ∀ a b : Fin n, n - t ≤ a.val → n - t ≤ b.val →
+        @mg K 𝕊 st.1 (a.val + 1) (b.val + 1) = prodFrom (QRm sq n U (@g1 K 𝕊 rv1)) (n - t + 1) t a b) ∧
+    (∀ (U0 : DMat K) (W : Array K), MWF m n U0 →
+      (∀ i, 1 ≤ i → i ≤ n → @g1 K 𝕊 W i ≠ 0 → @mg K 𝕊 U0 i i ≠ 0) →
+      ∀ (g0 s0 f0 : K) (L0 t : Nat), t ≤ (if m < n then m else n) → ∀ st : DMat K × K × K × K × Nat,
+      forIn [0:t] ((U0, g0, s0, f0, L0) : DMat K × K × K × K × Nat)
+        (@accUBody K 𝕊 m n (if m < n then m else n) W) = .ok st →
+      accU_Inv sq m n (if m < n then m else n) U0 W t st.1) ∧
+    (∀ (W0 rv10 : Array K) (L k i1 : Nat), 1 ≤ L → L ≤ i1 → i1 < k → k ≤ n →
+      (∀ j, L < j → j ≤ k → @g1 K 𝕊 rv10 j ≠ 0 ∧ @g1 K 𝕊 W0 (j - 1) ≠ 0) →
+      ∀ st st' : StQ K, sw_Inv sq m n A W0 rv10 L k i1 st →
+      @sweepBody K 𝕊 m n i1 st = .ok (.yield st') → sw_Inv sq m n A W0 rv10 L k (i1 + 1) st') ∧
+    (∀ (k : Nat), 1 ≤ k → k ≤ n → ∀ (sOne : K) (st : StP K), PInv sq m n A k st →
+      ∀ r : ForInStep (StP K), @passBody K 𝕊 m n k (k - 1) sOne st = .ok r →
+      r = .done st ∨ ∃ st', r = .yield st' ∧ PInv sq m n A k st') := by
+  refine ⟨fun i hi st h => bidiag_invariant sq (hhCol_stmt sq) (hhRow_stmt sq) hsq hsq0 m n A i hi st h,
+    fun U rv1 g0 s0 L0 t ht st h => ?_, fun U0 W hU0 hnz g0 s0 f0 L0 t ht st h => ?_,
+    fun W0 rv10 L k i1 h1 h2 h3 h4 hnz st st' hI hb =>
+      sweep_invariant sq hsq hsq0 m n A W0 rv10 L k i1 h1 h2 h3 h4 hnz st st' hI hb,
+    fun k hk1 hkn sOne st hI r hr =>
+      passBody_spec sq (search_stmt sq) (cancel_stmt sq) (flip_stmt sq) (sweep_stmt sq) hsq hsq0 m n k A hk1 hkn
+        sOne st hI r hr⟩
+  · obtain ⟨h1, -, h3⟩ := accV_invariant sq n U rv1 g0 s0 L0 t ht st h
+    exact ⟨h1, h3⟩
+  · have hmn1 : (if m < n then m else n) ≤ m := by split <;> omega
+    have hmn2 : (if m < n then m else n) ≤ n := by split <;> omega
+    have hmn3 : (if m < n then m else n) = m ∨ (if m < n then m else n) = n := by split <;> simp
+    exact accU_invariant sq hmn1 hmn2 hmn3 hU0 hnz g0 s0 f0 L0 ht st h
+
 end Gama.Ls.Svd
